@@ -336,6 +336,9 @@ def build():
     u.fn(KY, 'as_str', within='impl<VE: ValueEncoding> MetadataKey<VE>', ensures=[Clause('name', 'r@ == self.inner@')])
     u.fn(KY, 'unchecked_from_header_name', within='impl<VE: ValueEncoding> MetadataKey<VE>', ensures=[Clause('name', 'r.inner@ == name@')])
     u.close('}')
+    u.fn(KY, 'from_str', within='impl<VE: ValueEncoding> FromStr for MetadataKey<VE>', header='impl<VE: ValueEncoding> MetadataKey<VE> {', close=True, display='MetadataKey::from_str',
+         sig_edits=[lambda t: t.sub_code('R9', r'Self::Err', 'InvalidMetadataKey')],
+         ensures=[Clause('K4_a_key_parsed_from_text_is_on_the_side_of_its_type', 'r matches Ok(k) ==> k.wf() && Some(k.inner@) == HeaderName::parse(vstd::utf8::encode_utf8(s@))')])
     u._emit('impl<VE: ValueEncoding> MetadataValue<VE> {'); u._open_header = 'impl<VE: ValueEncoding> MetadataValue<VE> {'
     u.fn(VL, 'to_bytes', within='impl<VE: ValueEncoding> MetadataValue<VE>',
          ensures=[Clause('V1_decodes_the_wire_form', 'r matches Ok(b) ==> VE::dec(self.inner@) == Some(b@)'), Clause('V2_err_iff_undecodable', 'r is Err <==> VE::dec(self.inner@) is None')])
